@@ -126,6 +126,16 @@ func (h *VHist) readOp(op VOp) (string, error) {
 			return "", err
 		}
 		return h.entsDigest(ch.Entities), nil
+	case "feedlo": // ONE latest-only feed page
+		ds := h.W.Dsm.GetDataset(h.DsName(op.DS))
+		if ds == nil {
+			return "nodataset", nil
+		}
+		ch, err := ds.GetChanges(0, 0, true)
+		if err != nil {
+			return "", err
+		}
+		return h.entsDigest(ch.Entities), nil
 	case "countlist": // number of entities ONE listing call returns
 		ds := h.W.Dsm.GetDataset(h.DsName(op.DS))
 		if ds == nil {
@@ -174,7 +184,7 @@ func (h *VHist) entsDigest(es []*Entity) string {
 }
 
 func isRead(k string) bool {
-	return k == "get" || k == "getin" || k == "feed" || k == "list" || k == "countlist" || k == "countfeed"
+	return k == "get" || k == "getin" || k == "feed" || k == "feedlo" || k == "list" || k == "countlist" || k == "countfeed"
 }
 
 // modelRead is the model-side digest of a read op.
@@ -216,6 +226,12 @@ func (h *VHist) modelRead(m *model.World, op VOp) string {
 			return "nodataset"
 		}
 		return strings.Join(model.FeedStrings(d.Feed), " ")
+	case "feedlo":
+		d := m.Datasets[op.DS]
+		if d == nil {
+			return "nodataset"
+		}
+		return strings.Join(model.FeedStrings(d.LatestOnlyFeed()), " ")
 	case "list":
 		d := m.Datasets[op.DS]
 		if d == nil {
